@@ -20,14 +20,14 @@ RULE = (
     "great circles = 20 rational frames (equator, planes through the poles, meridian planes, generic tilts) x arcs = all ordered pairs of 16 rational angles "
     "forming a minor arc of length in (1e-3, pi-1e-3); point_within_gca: every arc x every on-circle lattice angle (inside/outside, margin >= 1e-6 rad from the "
     "endpoints) x every off-circle lattice point (>= 1e-6 rad from the plane); gca_gca_intersection: all unordered pairs of an arc subset closed under endpoint swap, "
-    "on different circles, every sign quantity >= 1e-6 rad; extreme_gca_latitude: every arc x the call sequence max, min, max on ONE caller-owned array (which must stay unchanged) with the interior-extremum decision >= 1e-6 rad; kilometre-scale arcs (0.03-0.3 degrees) on 6 local rational lattices (generic, equator/prime meridian, antimeridian, next to the pole, on a meridian): all pairs for gca_gca_intersection, meridian arcs for point_within_gca; each case also "
+    "on different circles, every sign quantity >= 1e-6 rad; extreme_gca_latitude: every arc x the call sequence max, min, max on ONE caller-owned array (which must stay unchanged) with the interior-extremum decision >= 1e-6 rad; kilometre-scale arcs (0.03-0.3 degrees) on 6 local rational lattices (generic, equator/prime meridian, antimeridian, next to the pole, on a meridian): all pairs for gca_gca_intersection, meridian arcs for point_within_gca; nearly coplanar circles (tilt 2e-3, 2e-5, 2e-6 rad about a common diameter): all arc pairs; each case also "
     "with endpoints swapped, arcs swapped and rotated about the polar axis by 6 rational angles. non-trivial = arcs through/near a pole, across the antimeridian, or "
     "crossing pairs; distinct = (function, arc(s), query)"
 )
 ASSUMPTIONS = [
     "expected answers are exact rational sign decisions; inputs are the nearest doubles of exactly-unit rational vectors (perturbation <= 1e-16 << margin)",
     "coincident great circles, arcs of exactly 180 degrees and points within the margin are not generated (the statement excludes them)",
-    "returned intersection points are compared with the exact point at 1e-9 rad; extreme latitudes with the closed form at 1e-9 rad",
+    "returned intersection points are compared with the exact point at 1e-9 rad (nearly coplanar family: plus the displacement that rounding the inputs to double can cause, 8 eps / (sin(arc) sin(tilt)) <= 1.5e-9); extreme latitudes with the closed form at 1e-9 rad",
 ]
 BOUNDS = {
     "quick": "point_within_gca on 12 frames; intersections: all pairs of a 160-arc subset (12.7k pairs); extreme latitude on 12 frames; symmetry variants on every 5th case",
@@ -68,7 +68,74 @@ def cases(tier):
     for bi in range(len(SHORT_BASES)):
         for blk in range(4):
             out.append({"kind": "short", "base": bi, "block": blk, "nblocks": 4, "tier": tier})
+    # pairs of great circles tilted against each other by 2e-3 .. 2e-6 rad (nearly coplanar, but distinct: the statement only excludes coincident circles)
+    for fi in ((0, 4) if tier == "quick" else (0, 4, 6, 9, 11, 15)):  # circles that do not contain the polar axis (those are the known pole-branch findings)
+        for N in TILT_N:
+            out.append({"kind": "tilt", "frame": fi, "N": N, "tier": tier})
     return out
+
+
+TILT_N = (1000, 100000, 1000000)
+
+
+def _run_tilt(case, res):
+    from uxarray.grid.intersections import gca_gca_intersection
+
+    V = res["violations"]
+    tier = case["tier"]
+    u, v, w = S.frames()[case["frame"]]
+    c, sn = S.rat_angle(S.Fr(1, case["N"]))  # rotation about u by 2*atan(1/N)
+    v2 = S.add(S.scale(v, c), S.scale(w, sn))
+    w2 = S.add(S.scale(v, -sn), S.scale(w, c))
+    fr1, fr2 = (u, v, w), (u, v2, w2)
+    tans = S.TANS[::3] if tier == "quick" else S.TANS[::2]
+    A1, A2 = S.arcs_on(fr1, tans), S.arcs_on(fr2, tans)
+    ncross = 0
+    for i, (a, b) in enumerate(A1):
+        for j, (cc, d) in enumerate(A2):
+            crosses, x, m = S.crossing(a, b, cc, d)
+            if crosses is None or m < MARGIN:
+                continue
+            ncross += int(crosses)
+            tags = sorted(set(_tags(a, b) + _tags(cc, d)))
+            for order in (0, 1):
+                g1 = np.array([_f(a), _f(b)])
+                g2 = np.array([_f(cc), _f(d)])
+                if order:
+                    g1, g2 = g2, g1
+                res["evaluations"] += 1
+                try:
+                    out = np.asarray(gca_gca_intersection(g1, g2), dtype=float).reshape(-1, 3)
+                    err = None
+                except Exception as e:
+                    out, err = np.zeros((0, 3)), type(e).__name__
+                why = ""
+                if err:
+                    why = "raises:" + err
+                elif crosses:
+                    if len(out) != 1:
+                        why = "missed-crossing" if len(out) == 0 else "extra-points"
+                    else:
+                        xf = np.array(S.fl(x))
+                        xf /= np.linalg.norm(xf)
+                        # conditioning: rounding the four endpoints to double (<= 1.1e-16 each) already turns each plane normal by up to
+                        # 2 eps / sin(arc length) and hence the crossing by that over sin(tilt): the exact point is only defined to that accuracy
+                        cond = 8 * 1.1e-16 / (math.sin(min(S.angle_f(a, b), S.angle_f(cc, d))) * math.sin(2.0 / case["N"]))
+                        if math.atan2(np.linalg.norm(np.cross(out[0], xf)), float(np.dot(out[0], xf))) > 1e-9 + cond:
+                            why = "wrong-point"
+                elif len(out) != 0:
+                    why = "false-intersection"
+                if why:
+                    V.append({"oracle": "gca_gca_intersection", "sig": "c14:gg:tilt%d:%s:%s" % (case["N"], why, "+".join(tags) or "generic"), "msg": "arcs %s->%s and %s->%s on great circles tilted by %.1e rad (order %d): returned %s; exact: %s (smallest decision margin %.2e rad)" % (S.fl(a), S.fl(b), S.fl(cc), S.fl(d), 2.0 / case["N"], order, out.tolist(), ("one crossing at %s" % (np.round(np.array(S.fl(x)) / S.norm_f(x), 12).tolist(),)) if crosses else "no crossing", m), "focus": {"kind": "replay1", "fn": "gg", "a": _rat(a), "b": _rat(b), "c": _rat(cc), "d": _rat(d), "order": order, "tier": tier}})
+            res["transitions"] += 1
+            key = digest(("tilt", case["frame"], case["N"], i, j))
+            res["states"].append(key)
+            if crosses:
+                res["nontrivial"].append(key)
+    res["outcomes"].append(digest(("tilt", case["frame"], case["N"], ncross, len(V))))
+    res["axes"] = {"tilt_pairs": {"crossing": ncross, "disjoint": len(A1) * len(A2) - ncross}}
+    res["sample"] = {"kind": "tilt", "frame": case["frame"], "N": case["N"], "crossing": ncross}
+    return res
 
 
 # local lattices in the stereographic plane (projection from the south pole: lines through the origin are meridians)
@@ -208,6 +275,8 @@ def run_case(case):
         return _replay1(case, res)
     if case["kind"] == "short":
         return _run_short(case, res)
+    if case["kind"] == "tilt":
+        return _run_tilt(case, res)
     if case["kind"] == "pwg":
         fr = S.frames()[case["frame"]]
         arcs = S.arcs_on(fr)
